@@ -205,3 +205,30 @@ func sortedKeys32(m map[uint32]*chunkSetMID) []uint32 {
 func accHasStream(a *Association, sid uint16) bool { _, ok := a.streams[sid]; return ok }
 
 func accStreamUnordered(s *Stream) bool { return s.unordered }
+
+func accReconfigIdle(a *Association) bool {
+	return len(a.reconfigs) == 0 && len(a.reconfigRequests) == 0
+}
+
+func accReconfigDescription(a *Association) string {
+	return "out=" + itoa(len(a.reconfigs)) + " in=" + itoa(len(a.reconfigRequests))
+}
+
+func itoa(n int) string {
+	if n == 0 {
+		return "0"
+	}
+	s := ""
+	neg := n < 0
+	if neg {
+		n = -n
+	}
+	for n > 0 {
+		s = string(rune('0'+n%10)) + s
+		n /= 10
+	}
+	if neg {
+		s = "-" + s
+	}
+	return s
+}
